@@ -415,7 +415,7 @@ struct Expected {
     held_payload_tokens: usize,
 }
 
-#[derive(Clone, Debug, PartialEq, Eq, PartialOrd, Ord, Serialize, Default)]
+#[derive(Clone, Debug, PartialEq, Eq, PartialOrd, Ord, Serialize, Deserialize, Default)]
 pub struct Gauges {
     /// (never, once, many); direct host: zeros
     pub registry: (usize, usize, usize),
@@ -1215,6 +1215,7 @@ fn key_of(o: &RunOut) -> Key {
     }
 }
 
+#[derive(Serialize, Deserialize)]
 struct Closure {
     states: usize,
     transitions: u64,
@@ -1226,14 +1227,17 @@ struct Closure {
     samples: Vec<serde_json::Value>,
     by_sub: BTreeMap<String, usize>,
     frontier_left: usize,
+    /// smallest case per key: (key, what, replay, size, occurrences)
+    violations: Vec<(String, String, serde_json::Value, usize, u64)>,
 }
 
-fn explore(host: HostKind, b: &Bounds, cap: usize, limit_s: f64, rep: &Reporter) -> Closure {
+fn explore(host: HostKind, b: &Bounds, cap: usize, limit_s: f64) -> Closure {
     let deadline = mc_kit::Deadline::new(limit_s);
-    let mut seen: BTreeMap<Key, Vec<Act>> = BTreeMap::new();
+    let mut vio: BTreeMap<String, (String, serde_json::Value, usize, u64)> = BTreeMap::new();
+    let mut seen: std::collections::BTreeSet<Key> = Default::default();
     let mut queue: VecDeque<(Vec<Act>, Ref)> = VecDeque::new();
     let first = run_path(host, &[], b, false);
-    seen.insert(key_of(&first), vec![]);
+    seen.insert(key_of(&first));
     queue.push_back((vec![], first.rf.clone()));
     let mut c = Closure {
         states: 1,
@@ -1246,6 +1250,7 @@ fn explore(host: HostKind, b: &Bounds, cap: usize, limit_s: f64, rep: &Reporter)
         samples: vec![],
         by_sub: BTreeMap::new(),
         frontier_left: 0,
+        violations: vec![],
     };
     while let Some((path, rf)) = queue.pop_front() {
         if seen.len() >= cap || deadline.expired() {
@@ -1261,13 +1266,22 @@ fn explore(host: HostKind, b: &Bounds, cap: usize, limit_s: f64, rep: &Reporter)
             c.steps += p.len() as u64;
             let mut cut = false;
             for f in &out.found {
-                rep.violation(Violation {
-                    key: f.key.clone(),
-                    what: format!("{host:?} host, after {p:?}: {}", f.what),
-                    replay: json!({"engine": "closure", "host": host, "path": p,
-                                   "bounds": {"max_oneshots": b.max_oneshots, "saturation": b.sat, "drop_legacy": b.drop_legacy}}),
-                    size: p.len(),
-                });
+                match vio.get_mut(&f.key) {
+                    // breadth-first: the first case of a key is a shortest one
+                    Some(v) => v.3 += 1,
+                    None => {
+                        vio.insert(
+                            f.key.clone(),
+                            (
+                                format!("{host:?} host, after {p:?}: {}", f.what),
+                                json!({"engine": "closure", "host": host, "path": p,
+                                       "bounds": {"max_oneshots": b.max_oneshots, "saturation": b.sat, "drop_legacy": b.drop_legacy}}),
+                                p.len(),
+                                1,
+                            ),
+                        );
+                    }
+                }
                 cut |= !f.projectable;
             }
             if cut {
@@ -1275,7 +1289,7 @@ fn explore(host: HostKind, b: &Bounds, cap: usize, limit_s: f64, rep: &Reporter)
                 continue;
             }
             let k = key_of(&out);
-            if !seen.contains_key(&k) {
+            if !seen.contains(&k) {
                 c.max_depth = c.max_depth.max(p.len());
                 let g = &out.gauges;
                 let m = &mut c.max_gauges;
@@ -1290,13 +1304,85 @@ fn explore(host: HostKind, b: &Bounds, cap: usize, limit_s: f64, rep: &Reporter)
                     c.samples.push(json!({"host": host, "path": p, "reference": out.rf,
                                           "gauges": out.gauges}));
                 }
-                seen.insert(k, p.clone());
+                seen.insert(k);
                 queue.push_back((p, out.rf.clone()));
             }
         }
     }
     c.states = seen.len();
+    c.violations = vio
+        .into_iter()
+        .map(|(k, (what, replay, size, n))| (k, what, replay, size, n))
+        .collect();
     c
+}
+
+fn host_name(h: HostKind) -> &'static str {
+    match h {
+        HostKind::Bridge => "Bridge",
+        HostKind::Direct => "Direct",
+        HostKind::Core => "Core",
+    }
+}
+
+/// Hidden subcommand: the closure of ONE host in its own process (crux_time's cleared set and
+/// id counter are process-global, so hosts cannot share a process concurrently).
+pub fn host_child(args: &[String]) -> i32 {
+    let get = |n: &str| mc_kit::arg_value(args, n);
+    let host = match get("--host").as_deref() {
+        Some("Direct") => HostKind::Direct,
+        Some("Core") => HostKind::Core,
+        _ => HostKind::Bridge,
+    };
+    let b = Bounds {
+        max_oneshots: get("--max-oneshots").and_then(|s| s.parse().ok()).unwrap_or(2),
+        sat: get("--sat").and_then(|s| s.parse().ok()).unwrap_or(1),
+        drop_legacy: !args.iter().any(|a| a == "--no-drop-legacy"),
+    };
+    let cap = get("--cap").and_then(|s| s.parse().ok()).unwrap_or(60_000);
+    let limit = get("--limit").and_then(|s| s.parse().ok()).unwrap_or(45.0);
+    let c = explore(host, &b, cap, limit);
+    std::fs::write(get("--out").expect("--out"), serde_json::to_vec(&c).unwrap()).expect("write");
+    0
+}
+
+fn explore_in_processes(b: &Bounds, cap: usize, limit: f64) -> Vec<Closure> {
+    let exe = std::env::current_exe().expect("current_exe");
+    let hosts = [HostKind::Direct, HostKind::Core, HostKind::Bridge];
+    let mut children = vec![];
+    for h in hosts {
+        let out = std::env::temp_dir().join(format!(
+            "mc-bridge-c13-{}-{}.json",
+            std::process::id(),
+            host_name(h)
+        ));
+        let mut cmd = std::process::Command::new(&exe);
+        cmd.args(["C13-host", "--host", host_name(h)])
+            .args(["--max-oneshots", &b.max_oneshots.to_string()])
+            .args(["--sat", &b.sat.to_string()])
+            .args(["--cap", &cap.to_string()])
+            .args(["--limit", &limit.to_string()])
+            .arg("--out")
+            .arg(&out);
+        if !b.drop_legacy {
+            cmd.arg("--no-drop-legacy");
+        }
+        let child = cmd.spawn().unwrap_or_else(|e| {
+            mc_kit::machinery_error(&format!("C13: cannot start a host process: {e}"))
+        });
+        children.push((child, out));
+    }
+    let mut res = vec![];
+    for (mut child, out) in children {
+        let ok = child.wait().map(|s| s.success()).unwrap_or(false);
+        let bytes = std::fs::read(&out).unwrap_or_default();
+        let _ = std::fs::remove_file(&out);
+        match (ok, serde_json::from_slice::<Closure>(&bytes)) {
+            (true, Ok(c)) => res.push(c),
+            _ => mc_kit::machinery_error("C13: a host process failed"),
+        }
+    }
+    res
 }
 
 pub fn run(tier: Tier, args: &[String]) -> i32 {
@@ -1310,7 +1396,7 @@ pub fn run(tier: Tier, args: &[String]) -> i32 {
     };
     let cap = mc_kit::arg_value(args, "--cap")
         .and_then(|s| s.parse().ok())
-        .unwrap_or(tier.pick(60_000, 1_000_000));
+        .unwrap_or(tier.pick(80_000, 3_000_000));
     // canary: a reference told that an aborted subscription is released immediately must be
     // contradicted by the implementation (lazy abort)
     {
@@ -1336,9 +1422,23 @@ pub fn run(tier: Tier, args: &[String]) -> i32 {
         }
     }
     let limit = tier.pick(45.0, 780.0);
-    let direct = explore(HostKind::Direct, &b, cap, limit * 0.2, &rep);
-    let core = explore(HostKind::Core, &b, cap, (limit - rep.elapsed()) * 0.5, &rep);
-    let bridge = explore(HostKind::Bridge, &b, cap, (limit - rep.elapsed()).max(5.0), &rep);
+    // one process per host, concurrently
+    let mut all = explore_in_processes(&b, cap, limit);
+    let bridge = all.pop().unwrap();
+    let core = all.pop().unwrap();
+    let direct = all.pop().unwrap();
+    for c in [&direct, &core, &bridge] {
+        for (key, what, replay, size, n) in &c.violations {
+            for _ in 0..(*n).min(3) {
+                rep.violation(Violation {
+                    key: key.clone(),
+                    what: what.clone(),
+                    replay: replay.clone(),
+                    size: *size,
+                });
+            }
+        }
+    }
     let show = |c: &Closure, host: &str| {
         json!({
             "host": host,
@@ -1351,6 +1451,7 @@ pub fn run(tier: Tier, args: &[String]) -> i32 {
             "longest_shortest_path": c.max_depth,
             "max_gauges_seen": c.max_gauges,
             "states_by_subscription_phase": c.by_sub,
+            "findings_with_occurrences": c.violations.iter().map(|v| (v.0.clone(), v.4)).collect::<BTreeMap<_, _>>(),
         })
     };
     if bridge.states < 2 || direct.states < 2 || core.states < 2 {
@@ -1387,7 +1488,7 @@ pub fn run(tier: Tier, args: &[String]) -> i32 {
         &[
             "merging: two histories with equal key are assumed to have equal futures (logical state by construction of the app, resources because the gauges are in the key); slab free-list order is not in the key",
             "requests the shell still holds (incl. the NotifyAfter request orphaned by a Command-API clear) count as outstanding work",
-            "single-threaded (crux_time's cleared set is process-global)",
+            "each host is explored single-threaded in its own process (crux_time's cleared set is process-global); the three processes run concurrently",
         ],
     )
 }
